@@ -56,6 +56,9 @@ def corrupt(module: str, e: dict) -> dict:
         for o in e["orders"]:
             o["clauses"] = list(reversed(o["clauses"])) + o["clauses"][:1] if o["clauses"] else ["WHERE", "SELECT"]
             o["balanced"] = False
+    elif m == "J_Ddl":
+        for o in e["orders"]:
+            o["seq"] = list(reversed(o["seq"])) + o["seq"][:1] if o["seq"] else ["CREATE", "TABLE"]
     elif m == "J_C14":
         e["excs"] = ["" for _ in e["excs"]] if any(e["excs"]) else ["BogusException" for _ in e["excs"]] or ["BogusException"]
         if not e["calls"]:
